@@ -18,9 +18,11 @@ Next == UNCHANGED c
 Spec == Init /\ [][Next]_c
 
 Expect(x) == IF x.t = "ctor"
-             THEN LET s == New(x.ver) IN <<[out |-> Outcome(s, x.kind), ver |-> After(s, x.kind).ver]>>
+             THEN LET s == New(x.ver) IN <<[out |-> Outcome(s, x.kind), ver |-> After(s, x.kind).ver,
+                                              dver |-> Derived(After(s, x.kind)).ver]>>
              ELSE Run(New(x.ver), x.steps)
-Holds == IF c.t = "ctor" THEN GateInv(After(New(c.ver), c.kind)) ELSE GateInv(Final(New(c.ver), c.steps))
+Holds == LET f == IF c.t = "ctor" THEN After(New(c.ver), c.kind) ELSE Final(New(c.ver), c.steps)
+         IN GateInv(f) /\ GateInv(Derived(f))
 Emit == /\ Holds
         /\ PrintT(ToJson([c |-> c, expect |-> Expect(c)]))
 \* the decision table of the five deciders
